@@ -1,5 +1,6 @@
 import Driver.Codec
 import Rbacx.Model.Tools
+import Rbacx.Model.Lint
 /- Driver.CmdC17 — `detect-format`, `cli-status`, `cli-model` (the model's `parseYaml` / `parsePolicyText` / `parsePolicyBytes` / `cliLoad` /
    `cliRun` on tables of external outcomes: the same lines `Run/SrcEvalCli.lean` takes for the translation). -/
 open Lean Codec Rbacx
@@ -91,4 +92,16 @@ def handleC17 (cmd : String) (j : Json) : Option (Except String Json) :=
       match CliCodec.evalModel x (fieldStr j "fn") args with
       | .ok r => pure (CliCodec.encResX r)
       | .error e => pure (Json.mkObj [("error", .str e)]))
+  | "lint-model" =>
+    -- the model's algorithm-dependent linter analysis (Model/Lint.lean), helpers = their hand-written models, first pass = nothing
+    some (do
+      let args ← match field j "args" with | .arr xs => xs.toList.mapM decVal | _ => throw "args"
+      let o ← decOracle (field j "oracle")
+      let E : Lint.Env := { o := o, dflt := "deny-overrides", acts := Lint.actions,
+                            cov := fun a b => .bool (Lint.resourceCovers o a b), unr := fun a b => .bool (Lint.firstApplicableUnreachable o a b),
+                            firstPass := fun _ _ => [] }
+      match fieldStr j "fn", args with
+      | "analyze_policy", [p, r] => pure (encVal (.list (Lint.analyzePolicy E p r)))
+      | "analyze_policyset", [p, r] => pure (encVal (.list (Lint.analyzePolicyset E p r)))
+      | _, _ => throw "lint-model: unknown function or arity")
   | _ => none
